@@ -19,7 +19,7 @@ from fractions import Fraction
 import numpy as np
 
 PROP = 'C13'
-TARGETS = ['T13s', 'T13se']
+TARGETS = ['T13s', 'T13se', 'T13k']
 LEAN_MODULES = ['HdVerif.Props.C13']
 MODEL_MODULES = ['HdVerif.Model.SRItems']
 NAMESPACE = 'HdVerif.C13'
